@@ -162,6 +162,12 @@ func checkWLStructure(w gen.WLSpec, m sepModel, pw *spg.Password) error {
 				}
 			}
 		}
+	case "nested":
+		for g, v := range gaps {
+			if !keptSet[v] && !titles[v] {
+				return fmt.Errorf("gap %d holds %q, the nested separator recipe yields list words", g, v)
+			}
+		}
 	case "script":
 		// per-gap values are an in-order subsequence of what the function returned
 		ret := m.Script.returned
@@ -227,6 +233,9 @@ func TestC05(t *testing.T) {
 	}
 	ev.Check(t, "c05_structure", ev.N(96000, 1000000), func(t *rapid.T) c05Case {
 		w := gen.WL(t, gen.WLOpts{List: gen.WordListOpts{Min: 1, Max: 12}, MaxLen: 12, AllowScript: true, UnknownCap: true})
+		if rapid.IntRange(0, 9).Draw(t, "nested_sep") == 0 {
+			w.Sep = gen.SepSpec{Kind: "nested", Const: rapid.SampledFrom([]string{"none", "all", "first"}).Draw(t, "nested_scheme")}
+		}
 		if rapid.IntRange(0, 11).Draw(t, "long") == 0 {
 			w.Length = rapid.IntRange(13, 300).Draw(t, "long_length") // "all lengths >= 1"
 		}
